@@ -1021,7 +1021,7 @@ func cliMultiFloors() {
 		"cli-multi-subseq:ok": 50, "cli-multi-subseq:must-fail": 8, "cli-multi-subseq:ref-seq": 20, "cli-multi-subseq:reverse": 12, "cli-multi-subseq:step": 15,
 		"cli-multi-subseq:to-files": 40, "cli-multi-subseq:to-stdout": 20, "cli-multi-subseq:alignments-with-different-window-counts": 5, "cli-multi-subseq:outputs-compared": 200,
 		"cli-multi-subsites:ok": 40, "cli-multi-subsites:must-fail": 10, "cli-multi-subsites:ref-seq": 20, "cli-multi-subsites:reverse": 40, "cli-multi-subsites:sitefile": 30,
-		"cli-multi-subsites:repeats": 20, "cli-multi-subsites:reverse+sitefile+repeats": 4, "cli-multi-subsites:to-files": 25, "cli-multi-subsites:to-stdout": 35,
+		"cli-multi-subsites:repeats": 20, "cli-multi-subsites:reverse+sitefile+repeats": 3, "cli-multi-subsites:to-files": 25, "cli-multi-subsites:to-stdout": 35,
 		"cli-multi-split:ok": 25, "cli-multi-extract:ok": 15, "cli-multi-extract:must-fail": 2,
 		"cli-multi:alignments=1": 25, "cli-multi:alignments=2": 60, "cli-multi:alignments=3": 60, "cli-multi:alignments=4": 20, "cli-multi:input-strict": 30, "cli-multi:output-strict": 30,
 		"cli-multi:empty-file:subseq": 1, "cli-multi:empty-file:subsites": 1, "cli-multi:empty-file:split": 1, "cli-multi:empty-file:extract": 1} {
